@@ -6,6 +6,7 @@ import (
 	"sync"
 	"sync/atomic"
 
+	"github.com/fatedier/frp/pkg/util/verifhook"
 	"github.com/fatedier/frp/pkg/util/vhost"
 )
 
@@ -39,6 +40,7 @@ func (ctl *HTTPGroupController) Register(
 		ctl.groups[indexKey] = g
 	}
 	ctl.mu.Unlock()
+	verifhook.At("group.lookedup", "kind", "http", "group", group, "obj", verifhook.ID(g), "created", !ok, "member", proxyName)
 
 	return g.Register(proxyName, group, groupKey, routeConfig)
 }
@@ -87,6 +89,9 @@ func (g *HTTPGroup) Register(
 ) (err error) {
 	g.mu.Lock()
 	defer g.mu.Unlock()
+	defer func() {
+		verifhook.At("group.join", "kind", "http", "group", group, "obj", verifhook.ID(g), "member", proxyName, "ln", proxyName, "n", len(g.createFuncs), "err", err, "key", groupKey, "param", routeConfig.Domain+"|"+routeConfig.Location+"|"+routeConfig.RouteByHTTPUser, "port", 0)
+	}()
 	if len(g.createFuncs) == 0 {
 		// the first proxy in this group
 		tmp := routeConfig // copy object
@@ -126,6 +131,9 @@ func (g *HTTPGroup) Register(
 func (g *HTTPGroup) UnRegister(proxyName string) (isEmpty bool) {
 	g.mu.Lock()
 	defer g.mu.Unlock()
+	defer func() {
+		verifhook.At("group.leave", "kind", "http", "group", g.group, "obj", verifhook.ID(g), "ln", proxyName, "n", len(g.createFuncs))
+	}()
 	delete(g.createFuncs, proxyName)
 	for i, name := range g.pxyNames {
 		if name == proxyName {
